@@ -445,6 +445,6 @@ def run(tier, seed):
 MANIFEST = {
     "engine": "E",
     "technique": "exhaustive small-scope enumeration of child sets over catalogues (names x every cap kind x JSON metadata shapes) through the real pack/unpack code on memory-backed directories",
-    "text": "Every child set of size <= 2 (thorough: <= 3 on a reduced catalogue) drawn from 14 Unicode names (NFC/NFD pairs, combining sequences, astral, empty, netstring look-alikes, long), every capability kind of uri.py plus unknown-cap shapes, and 8 JSON metadata shapes is written with the real DirectoryNode/NodeMaker (create, incremental set_node, immutable directory) and read back in a fresh client through the write-cap and the read-cap; names, cap strings and metadata must come back equal, and immutable directories must refuse exactly the mutable / write-capable / unknown-rw children.",
+    "text": "Every child set of size <= 2 (thorough: <= 3 on a reduced catalogue) drawn from 14 Unicode names (NFC/NFD pairs, combining sequences, astral, empty, netstring look-alikes, long), every capability kind of uri.py plus unknown-cap shapes, and 8 JSON metadata shapes is written with the real DirectoryNode/NodeMaker (create, incremental set_node, immutable directory) and read back in a fresh client through the write-cap and the read-cap; names, cap strings and metadata must come back equal, and immutable directories must refuse exactly the mutable / write-capable / unknown-rw children. Alleged-prefixed unknown caps given alone in the write slot are in the catalogue.",
     "note": "Small scope only (<= 3 entries, catalogue values): entries are packed independently so larger directories add no new interaction, but this is an argument, not a proof. The mutable-file layer is replaced by a dict. Simulation caps x-tahoe-future-test-* and verify-caps of mutable objects inside immutable directories are counted, not judged.",
 }
